@@ -2,126 +2,52 @@
 // their algebraic laws and plain reference definitions.
 //
 // E-ENUM: every string up to the length bound over a per-function adversarial alphabet is executed on
-// the real functions.  Laws that need no model (concatenation, piece count, no delimiter in a piece)
-// are checked first; then the result is compared with a reference definition written in this file.
-// Reference definitions are deliberately written in a different style from the library (character
-// accumulation instead of find(); recursive descent instead of an explicit stack; erase loops
-// instead of find_first_not_of) so that a shared mistake is unlikely.
-#include <stdarg.h>
-#include <string.h>
-
+// the real functions, with every delimiter / limit / flag / offset / prior-object-state combination.
+// Laws that need no model (concatenation, piece count, no delimiter in a piece) are checked first; then
+// the result is compared with a reference definition (C08_ref.hh).  This file holds the single-call
+// sweeps; C08_more.cc holds call histories, calling contexts, multi-step scenarios and the wide printf.
+#include <array>
 #include <deque>
+#include <forward_list>
 #include <list>
 #include <set>
+#include <span>
 #include <string>
+#include <string_view>
 #include <vector>
 
-#include "Strings.hh"
-#include "vf.hh"
-
-using std::string;
-using std::vector;
-using std::wstring;
+#include "C08_ref.hh"
 
 namespace {
-
-// ---------- rendering ---------------------------------------------------------------------------
-
-string showw(const wstring& w) {
-  string s;
-  for (wchar_t c : w) s.push_back((c >= 0 && c < 0x100) ? (char)c : '?');
-  return "L" + vf::show(s);
-}
-string showv(const vector<string>& v) {
-  string o = "[";
-  for (size_t i = 0; i < v.size(); i++) o += (i ? ", " : "") + vf::show(v[i]);
-  return o + "]";
-}
-string showv(const vector<wstring>& v) {
-  string o = "[";
-  for (size_t i = 0; i < v.size(); i++) o += (i ? ", " : "") + showw(v[i]);
-  return o + "]";
-}
-string show1(const string& s) { return vf::show(s); }
-string show1(const wstring& s) { return showw(s); }
-
-wstring widen(const string& s) {
-  wstring w;
-  for (unsigned char c : s) w.push_back((wchar_t)c);
-  return w;
-}
-
-// ---------- textbook definitions ------------------------------------------------------------------
-
-// items with the delimiter *between* consecutive items
-template <class Str, class Cont>
-Str ref_join(const Cont& items, const Str& delim) {
-  Str out;
-  size_t n = 0;
-  for (const auto& it : items) {
-    if (n++ > 0) out.append(delim);
-    out.append(it);
-  }
-  return out;
-}
-
-// cut at the first m occurrences of d (at all of them when m == 0); accumulates character by character
-template <class Str>
-vector<Str> ref_split(const Str& s, typename Str::value_type d, size_t m) {
-  vector<Str> out;
-  Str cur;
-  size_t cuts = 0;
-  for (auto c : s) {
-    if (c == d && (m == 0 || cuts < m)) {
-      out.push_back(cur);
-      cur.clear();
-      cuts++;
-    } else {
-      cur.push_back(c);
-    }
-  }
-  out.push_back(cur);
-  return out;
-}
-
-template <class Str>
-size_t count_char(const Str& s, typename Str::value_type d) {
-  size_t n = 0;
-  for (auto c : s) n += (c == d);
-  return n;
-}
-
-const size_t MAX_SPLITS[] = {0, 1, 2, 3, 9};
 
 // ---------- split / join law section ----------------------------------------------------------------
 
 template <class Str>
-void check_split(vf::Run& r, const char* fname, const string& alphabet, size_t maxlen, bool with_join) {
+void check_split(vf::Run& r, const char* fname, const vector<typename Str::value_type>& alphabet,
+    const vector<typename Str::value_type>& delims, size_t maxlen, const vector<size_t>& limits, bool with_join) {
   using Ch = typename Str::value_type;
   r.note(fname);
   string k = fname;
-  vf::all_strings(alphabet, maxlen, [&](const string& narrow) {
-    for (char dc : alphabet) {
-      for (size_t m : MAX_SPLITS) {
+  all_seqs<Ch>(alphabet, maxlen, [&](const Str& s) {
+    for (Ch d : delims) {
+      for (size_t m : limits) {
         if (!r.take()) continue;
-        Str s;
-        for (unsigned char c : narrow) s.push_back((Ch)c);
-        Ch d = (Ch)(unsigned char)dc;
-        if (r.wants_desc()) r.desc(vf::fmt("%s(%s, '%c', max_splits=%zu)", fname, show1(s).c_str(), dc, m));
+        auto call = [&] { return vf::fmt("%s(%s, %s, max_splits=%zu)", fname, show_any(s).c_str(), showc((long long)d).c_str(), m); };
+        if (r.wants_desc()) r.desc(call());
         vector<Str> got;
         string what;
+        r.poison_errno();
         string oc = vf::outcome([&] { got = phosg::split(s, d, m); }, &what);
         size_t nd = count_char(s, d);
         if (nd) r.nontriv();
-        auto ctx = [&] { return vf::fmt("%s(%s, '%c', max_splits=%zu) returned %s", fname, show1(s).c_str(), dc, m, showv(got).c_str()); };
+        auto ctx = [&] { return call() + " returned " + showv(got); };
         if (oc != "ok") {
-          r.fail(k + ":throws", [&] { return vf::fmt("%s(%s, '%c', %zu) threw %s (%s)", fname, show1(s).c_str(), dc, m, oc.c_str(), what.c_str()); });
+          r.fail(k + ":throws", [&] { return call() + " threw " + oc + " (" + what + ")"; });
           continue;
         }
         bool bad = false;
         // law 1: number of pieces
-        size_t want_n = nd + 1;
-        if (m > 0 && want_n > m + 1) want_n = m + 1;
+        size_t want_n = want_pieces(nd, m);
         if (got.size() != want_n) {
           bad = true;
           r.fail(k + ":piece-count", [&] { return ctx() + vf::fmt(": %zu pieces, expected %zu (= delimiters+1 capped at max_splits+1)", got.size(), want_n); });
@@ -129,8 +55,7 @@ void check_split(vf::Run& r, const char* fname, const string& alphabet, size_t m
         // law 2: no piece but the last contains the delimiter; the last only if max_splits stopped splitting
         for (size_t i = 0; i < got.size(); i++) {
           bool last = (i + 1 == got.size());
-          bool capped = (m > 0 && got.size() == m + 1);
-          if (count_char(got[i], d) && !(last && capped)) {
+          if (count_char(got[i], d) && !(last && is_capped(nd, m))) {
             bad = true;
             r.fail(k + ":delimiter-in-piece", [&] { return ctx() + vf::fmt(": piece %zu contains the delimiter although max_splits did not stop splitting there", i); });
             break;
@@ -140,7 +65,7 @@ void check_split(vf::Run& r, const char* fname, const string& alphabet, size_t m
         Str dstr(1, d);
         if (ref_join<Str>(got, dstr) != s) {
           bad = true;
-          r.fail(k + ":concat-law", [&] { return ctx() + ": pieces joined by the delimiter (textbook join) give " + show1(ref_join<Str>(got, dstr)) + ", not the input"; });
+          r.fail(k + ":concat-law", [&] { return ctx() + ": pieces joined by the delimiter (textbook join) give " + show_any(ref_join<Str>(got, dstr)) + ", not the input"; });
         }
         // reference definition
         auto want = ref_split(s, d, m);
@@ -148,50 +73,85 @@ void check_split(vf::Run& r, const char* fname, const string& alphabet, size_t m
           bad = true;
           r.fail(k + ":pieces", [&] { return ctx() + ", reference scanner gives " + showv(want); });
         }
+        // the defaulted max_splits argument means "no limit"
+        if (m == 0) {
+          vector<Str> got_def;
+          string oc2 = vf::outcome([&] { got_def = phosg::split(s, d); });
+          if (oc2 != "ok" || got_def != want) {
+            bad = true;
+            r.fail(k + ":default-max_splits", [&] { return vf::fmt("%s(%s, %s) with max_splits defaulted ", fname, show_any(s).c_str(), showc((long long)d).c_str()) + (oc2 == "ok" ? "returned " + showv(got_def) : "threw " + oc2) + ", expected " + showv(want); });
+          }
+        }
         // law 4: the library's own join inverts split (only std::string pieces can be joined)
         if constexpr (std::is_same<Str, string>::value) {
           if (with_join) {
-            string j1 = phosg::join(got, d);             // DelimiterT = char
+            string j1 = phosg::join(got, d);   // DelimiterT = char
             const string ds(1, d);
-            string j2 = phosg::join(got, ds);            // DelimiterT = const std::string
+            string j2 = phosg::join(got, ds);  // DelimiterT = const std::string
             if (j1 != s || j2 != s) {
               bad = true;
-              r.fail("join:split-roundtrip", [&] { return vf::fmt("join(split(%s, '%c', %zu), \"%c\") == %s, expected the original string (split returned %s)", show1(s).c_str(), dc, m, dc, vf::show(j1 != s ? j1 : j2).c_str(), showv(got).c_str()); });
+              r.fail("join:split-roundtrip", [&] { return "join(" + call() + ", the delimiter) == " + vf::show(j1 != s ? j1 : j2) + ", expected the original string (split returned " + showv(got) + ")"; });
             }
           }
         }
-        if (!bad) r.ok(got.size() == 1 ? "one-piece" : (m > 0 && got.size() == m + 1 ? "capped-by-max_splits" : "split-at-every-delimiter"));
+        if (!bad) r.ok(got.size() == 1 ? "one-piece" : (is_capped(nd, m) ? "capped-by-max_splits" : "split-at-every-delimiter"));
       }
     }
   });
 }
 
+const vector<size_t> LIMITS(MAX_SPLITS, MAX_SPLITS + N_MAX_SPLITS);
+const vector<size_t> LIMITS_SHORT = {0, 1, 2, 3, 9, SIZE_MAX};
+
 // ---------- join alone --------------------------------------------------------------------------------
 
-const char* const JOIN_POOL[] = {"", "a", "b", "ab"};
-const char* const JOIN_DELIMS[] = {"", ",", "--"};
+// item pool: empty, one char, two chars, a NUL byte (std::string items only)
+const string JOIN_POOL[] = {string(), "a", "b", "ab", string(1, '\0')};
+const size_t JOIN_POOL_CSTR = 4;  // the first four are usable as const char* / char items
 
+// `c` is the container handed to phosg::join, `in_order` the textual value of its items in iteration order
 template <class Cont>
-void check_join_container(vf::Run& r, const char* cname, const vector<string>& items, bool& bad) {
-  Cont c(items.begin(), items.end());
-  vector<string> in_order(c.begin(), c.end());  // iteration order of the container (sorted/unique for set)
-  for (const char* dl : JOIN_DELIMS) {
-    const string delim = dl;
+void check_join(vf::Run& r, const char* cname, const Cont& c, const vector<string>& in_order, bool& bad) {
+  auto fail = [&](const char* dtype, const string& delim, const string& got, const string& want) {
+    bad = true;
+    r.fail("join:definition", [&] {
+      return vf::fmt("join(%s%s, %s as %s) == %s, textbook definition (delimiter between consecutive items) gives %s", cname, showv(in_order).c_str(),
+          vf::show(delim).c_str(), dtype, vf::show(got).c_str(), vf::show(want).c_str());
+    });
+  };
+  const string delims[] = {string(), ",", "--", string(",\0", 2)};
+  for (size_t di = 0; di < 4; di++) {
+    const string delim = delims[di];
     string want = ref_join<string>(in_order, delim);
-    string got_s = phosg::join(c, delim);  // DelimiterT = const std::string
-    const char* dptr = dl;
-    string got_p = phosg::join(c, dptr);   // DelimiterT = const char*
-    string got_c = want;
+    {
+      string g = phosg::join(c, delim);  // DelimiterT = const std::string
+      if (g != want) fail("const std::string", delim, g, want);
+    }
+    {
+      string mut = delim;
+      string g = phosg::join(c, mut);  // DelimiterT = std::string
+      if (g != want) fail("std::string", delim, g, want);
+      if (mut != delim) fail("std::string (delimiter object modified by the call)", delim, mut, delim);
+    }
+    {
+      std::string_view sv(delim);
+      string g = phosg::join(c, sv);  // DelimiterT = std::string_view
+      if (g != want) fail("std::string_view", delim, g, want);
+    }
+    if (di < 3) {
+      const char* dptr = delims[di].c_str();
+      string g = phosg::join(c, dptr);  // DelimiterT = const char*
+      if (g != want) fail("const char*", delim, g, want);
+      string gl = di == 0 ? phosg::join(c, "") : (di == 1 ? phosg::join(c, ",") : phosg::join(c, "--"));  // DelimiterT = const char[N]
+      if (gl != want) fail("string literal", delim, gl, want);
+    }
     if (delim.size() == 1) {
       char ch = delim[0];
-      got_c = phosg::join(c, ch);          // DelimiterT = char
-    }
-    if (got_s != want || got_p != want || got_c != want) {
-      bad = true;
-      r.fail("join:definition", [&] {
-        return vf::fmt("join(%s%s, %s) == %s, textbook definition (delimiter between consecutive items) gives %s", cname, showv(in_order).c_str(),
-            vf::show(delim).c_str(), vf::show(got_s != want ? got_s : (got_p != want ? got_p : got_c)).c_str(), vf::show(want).c_str());
-      });
+      string g = phosg::join(c, ch);  // DelimiterT = char
+      if (g != want) fail("char", delim, g, want);
+      const char cch = delim[0];
+      string g2 = phosg::join(c, cch);  // DelimiterT = const char
+      if (g2 != want) fail("const char", delim, g2, want);
     }
   }
   string want = ref_join<string>(in_order, string());
@@ -202,99 +162,29 @@ void check_join_container(vf::Run& r, const char* cname, const vector<string>& i
   }
 }
 
-// ---------- split_context ---------------------------------------------------------------------------
-
-// Independent bracket / quote scanner (recursive descent).  Reading used:
-//   * ( [ { < open a group closed by the matching ) ] } > ; groups nest;
-//   * ' and " open a quoted string closed by the same quote; inside it a backslash escapes the next
-//     character and brackets / the other quote are ordinary characters;
-//   * a delimiter is top-level iff it is outside every group and every quoted string.
-// Inputs on which reasonable readings differ are flagged `ambiguous` and only the model-free laws are
-// checked on them: a closing bracket that does not close the innermost open group (stray closer) and a
-// backslash outside a quoted string.
-struct Scan {
-  const string& s;
-  char delim;
-  bool ambiguous = false;
-  bool balanced = true;
-  vector<size_t> top;  // positions of top-level delimiters
-  size_t pos = 0;
-
-  static char closer_for(char c) {
-    switch (c) {
-      case '(': return ')';
-      case '[': return ']';
-      case '{': return '}';
-      case '<': return '>';
-    }
-    return 0;
-  }
-  static bool is_closer(char c) { return c == ')' || c == ']' || c == '}' || c == '>'; }
-
-  void quoted(char q) {  // pos is just after the opening quote
-    while (pos < s.size()) {
-      char c = s[pos];
-      if (c == '\\') {
-        pos += 2;  // escaped character (if the text ends here the string is unterminated)
-        continue;
-      }
-      pos++;
-      if (c == q) return;
-    }
-    balanced = false;
-  }
-  void group(char want_close) {  // want_close == 0: top level
-    while (pos < s.size() && balanced) {
-      char c = s[pos];
-      if (want_close && c == want_close) {
-        pos++;
-        return;
-      }
-      if (c == '\'' || c == '"') {
-        pos++;
-        quoted(c);
-      } else if (closer_for(c)) {
-        pos++;
-        group(closer_for(c));
-      } else {
-        if (is_closer(c) || c == '\\') ambiguous = true;
-        if (!want_close && c == delim) top.push_back(pos);
-        pos++;
-      }
-    }
-    if (want_close) balanced = false;
-  }
-  Scan(const string& str, char d) : s(str), delim(d) {
-    group(0);
-    if (pos > s.size()) balanced = false;  // escape ran past the end inside a quoted string
-  }
-};
-
-vector<string> cut_at(const string& s, const vector<size_t>& at, size_t m) {
-  vector<string> out;
-  size_t start = 0, cuts = 0;
-  for (size_t p : at) {
-    if (m && cuts == m) break;
-    out.push_back(s.substr(start, p - start));
-    start = p + 1;
-    cuts++;
-  }
-  out.push_back(s.substr(start));
-  return out;
+template <class Cont>
+void check_join_strings(vf::Run& r, const char* cname, const vector<string>& items, bool& bad) {
+  Cont c(items.begin(), items.end());
+  vector<string> in_order(c.begin(), c.end());  // iteration order of the container (sorted/unique for set)
+  check_join(r, cname, c, in_order, bad);
 }
 
-void check_split_context(vf::Run& r, const string& alphabet, size_t maxlen, char d) {
+// ---------- split_context ---------------------------------------------------------------------------
+
+// strings of the maximal length get `limits_longest` (the small values and SIZE_MAX), shorter ones all of `limits`
+void check_split_context(vf::Run& r, const string& alphabet, size_t maxlen, char d, const vector<size_t>& limits, const vector<size_t>& limits_longest) {
   r.note("split_context");
   vf::all_strings(alphabet, maxlen, [&](const string& s) {
-    for (size_t m : MAX_SPLITS) {
+    for (size_t m : (s.size() == maxlen ? limits_longest : limits)) {
       if (!r.take()) continue;
-      if (r.wants_desc()) r.desc(vf::fmt("split_context(%s, '%c', max_splits=%zu)", vf::show(s).c_str(), d, m));
+      auto ctx = [&] { return vf::fmt("split_context(%s, %s, max_splits=%zu)", vf::show(s).c_str(), showc(d).c_str(), m); };
+      if (r.wants_desc()) r.desc(ctx());
       vector<string> got;
       string what;
+      r.poison_errno();
       string oc = vf::outcome([&] { got = phosg::split_context(s, d, m); }, &what);
       Scan sc(s, d);
       if (!sc.top.empty() || s.find_first_of("([{<'\"") != string::npos) r.nontriv();
-      auto ctx = [&] { return vf::fmt("split_context(%s, '%c', max_splits=%zu)", vf::show(s).c_str(), d, m); };
       if (oc != "ok" && oc != "runtime_error") {
         r.fail("split_context:exception-type", [&] { return ctx() + " threw " + oc + " (" + what + "); only runtime_error is documented"; });
         continue;
@@ -307,9 +197,17 @@ void check_split_context(vf::Run& r, const string& alphabet, size_t maxlen, char
           bad = true;
           r.fail("split_context:concat-law", [&] { return ctx() + " returned " + showv(got) + "; joined by the delimiter that is " + vf::show(ref_join<string>(got, ds)) + ", not the input"; });
         }
-        if (got.empty() || (m > 0 && got.size() > m + 1)) {
+        if (got.empty() || (m > 0 && got.size() - 1 > m)) {
           bad = true;
           r.fail("split_context:piece-count-cap", [&] { return ctx() + vf::fmt(" returned %zu pieces (must be 1..max_splits+1): ", got.size()) + showv(got); });
+        }
+      }
+      if (m == 0) {
+        vector<string> got_def;
+        string oc2 = vf::outcome([&] { got_def = phosg::split_context(s, d); });
+        if (oc2 != oc || got_def != got) {
+          bad = true;
+          r.fail("split_context:default-max_splits", [&] { return vf::fmt("split_context(%s, %s) with max_splits defaulted: %s %s, but with max_splits=0 written out: %s %s", vf::show(s).c_str(), showc(d).c_str(), oc2.c_str(), showv(got_def).c_str(), oc.c_str(), showv(got).c_str()); });
         }
       }
       if (sc.ambiguous) {
@@ -325,19 +223,17 @@ void check_split_context(vf::Run& r, const string& alphabet, size_t maxlen, char
         continue;
       }
       if (oc != "ok") {
-        r.ok("unbalanced: runtime_error");
+        if (!bad) r.ok("unbalanced: runtime_error");
         continue;
       }
-      size_t want_n = sc.top.size() + 1;
-      if (m > 0 && want_n > m + 1) want_n = m + 1;
+      size_t want_n = want_pieces(sc.top.size(), m);
       if (got.size() != want_n) {
         bad = true;
         r.fail("split_context:piece-count", [&] { return ctx() + vf::fmt(" returned %zu pieces %s; %zu top-level delimiters -> expected %zu", got.size(), showv(got).c_str(), sc.top.size(), want_n); });
       }
       for (size_t i = 0; i < got.size(); i++) {
         bool last = (i + 1 == got.size());
-        bool capped = (m > 0 && got.size() == m + 1);
-        if (last && capped) continue;
+        if (last && is_capped(sc.top.size(), m)) continue;
         Scan ps(got[i], d);
         if (!ps.top.empty() || !ps.balanced) {
           bad = true;
@@ -350,221 +246,170 @@ void check_split_context(vf::Run& r, const string& alphabet, size_t maxlen, char
         bad = true;
         r.fail("split_context:pieces", [&] { return ctx() + " returned " + showv(got) + ", independent scanner gives " + showv(want); });
       }
-      if (!bad) r.ok(sc.top.empty() ? "balanced: one piece" : (got.size() < sc.top.size() + 1 ? "balanced: capped by max_splits" : "balanced: split at every top-level delimiter"));
+      if (!bad) r.ok(sc.top.empty() ? "balanced: one piece" : (is_capped(sc.top.size(), m) ? "balanced: capped by max_splits" : "balanced: split at every top-level delimiter"));
     }
   });
 }
 
-// ---------- split_args ----------------------------------------------------------------------------------
+// ---------- in-place helpers (strip_*, strip_multiline_comments) on objects in every prior state ------------
 
-// Shell-style reference (StringsTest documents: blanks separate, both quote kinds group, a backslash
-// escapes the next character inside and outside quotes; dangling backslash / unterminated quote throw).
-// Variant A lets a quote start an argument (so "" yields an empty argument); the library's answer to
-// that question is not settled by the property, so inputs where A contains an empty argument are a
-// don't-care class.
-struct ArgsRef {
-  bool error = false;
-  vector<string> args;
-  bool has_empty = false;
-};
-
-ArgsRef ref_split_args(const string& s) {
-  ArgsRef out;
-  string cur;
-  bool have = false;
-  size_t i = 0, n = s.size();
-  auto flush = [&] {
-    if (have) {
-      if (cur.empty()) out.has_empty = true;
-      out.args.push_back(cur);
-    }
-    cur.clear();
-    have = false;
-  };
-  while (i < n) {
-    char c = s[i];
-    if (c == ' ' || c == '\t') {
-      flush();
-      i++;
-    } else if (c == '\\') {
-      if (i + 1 >= n) { out.error = true; return out; }
-      cur.push_back(s[i + 1]);
-      have = true;
-      i += 2;
-    } else if (c == '"' || c == '\'') {
-      have = true;
-      i++;
-      for (;;) {
-        if (i >= n) { out.error = true; return out; }
-        if (s[i] == c) { i++; break; }
-        if (s[i] == '\\') {
-          if (i + 1 >= n) { out.error = true; return out; }
-          cur.push_back(s[i + 1]);
-          i += 2;
-        } else cur.push_back(s[i++]);
-      }
-    } else {
-      cur.push_back(c);
-      have = true;
-      i++;
-    }
-  }
-  flush();
-  return out;
-}
-
-// ---------- strip_* -------------------------------------------------------------------------------------
-
-template <class Str>
-bool is_ws(typename Str::value_type c) { return c == ' ' || c == '\t' || c == '\r' || c == '\n'; }
-
-template <class Str>
-Str ref_rstrip_ws(Str s) {
-  while (!s.empty() && is_ws<Str>(s.back())) s.pop_back();
-  return s;
-}
-template <class Str>
-Str ref_lstrip_ws(Str s) {
-  size_t i = 0;
-  while (i < s.size() && is_ws<Str>(s[i])) i++;
-  return Str(s.begin() + i, s.end());
-}
-template <class Str>
-Str ref_rstrip_zero(Str s) {
-  while (!s.empty() && s.back() == 0) s.pop_back();
-  return s;
-}
-
-// comments: text between "/*" and the next "*/" (which may not overlap the opener) is removed, except
-// that newlines inside a comment are kept; written with find() on the original string
-template <class Str>
-Str ref_strip_comments(const Str& s, bool* unterminated) {
-  using Ch = typename Str::value_type;
-  const Ch open[] = {'/', '*', 0}, close[] = {'*', '/', 0};
-  Str out;
-  size_t pos = 0;
-  *unterminated = false;
-  for (;;) {
-    size_t a = s.find(open, pos);
-    if (a == Str::npos) {
-      out.append(s, pos, Str::npos);
-      return out;
-    }
-    out.append(s, pos, a - pos);
-    size_t b = s.find(close, a + 2);
-    size_t end = (b == Str::npos) ? s.size() : b;
-    for (size_t i = a + 2; i < end; i++) if (s[i] == '\n') out.push_back('\n');
-    if (b == Str::npos) {
-      *unterminated = true;
-      return out;
-    }
-    pos = b + 2;
-  }
-}
-
-template <class Str>
-void check_comments(vf::Run& r, const char* fname, const string& alphabet, size_t maxlen) {
-  using Ch = typename Str::value_type;
+// real(obj) runs the library function in place; ref(value, &must_throw) gives the expected value
+template <class Str, class Real, class Ref, class NonTriv>
+void sweep_inplace(vf::Run& r, const string& fname, const vector<typename Str::value_type>& alphabet, size_t maxlen, Real real, Ref ref, NonTriv nontriv) {
   r.note(fname);
-  string k = fname;
-  vf::all_strings(alphabet, maxlen, [&](const string& narrow) {
-    for (int allow = 0; allow < 2; allow++) {
+  all_seqs<typename Str::value_type>(alphabet, maxlen, [&](const Str& s) {
+    for (int prior = 0; prior < N_PRIOR; prior++) {
       if (!r.take()) continue;
-      Str s;
-      for (unsigned char c : narrow) s.push_back((Ch)c);
-      if (r.wants_desc()) r.desc(vf::fmt("%s(%s, allow_unterminated=%d)", fname, show1(s).c_str(), allow));
-      bool unterminated = false;
-      Str want = ref_strip_comments(s, &unterminated);
-      if (narrow.find("/*") != string::npos) r.nontriv();
-      Str got = s;
+      auto ctx = [&] { return fname + "(" + show_any(s) + ") on " + prior_name(prior); };
+      if (r.wants_desc()) r.desc(ctx());
+      bool must_throw = false;
+      Str want = ref(s, &must_throw);
+      if (nontriv(s, want)) r.nontriv();
+      Str got;
+      make_prior(got, s, prior);
       string what;
-      string oc = vf::outcome([&] { phosg::strip_multiline_comments(got, (bool)allow); }, &what);
-      bool want_throw = unterminated && !allow;
-      auto ctx = [&] { return vf::fmt("%s(%s, allow_unterminated=%d)", fname, show1(s).c_str(), allow); };
-      if (want_throw) {
-        if (oc == "runtime_error") r.ok("unterminated: runtime_error");
-        else r.fail(k + ":unterminated-not-rejected", [&] { return ctx() + " -> " + (oc == "ok" ? "returned " + show1(got) : "threw " + oc) + "; expected runtime_error (comment never closed)"; });
-      } else if (oc != "ok") {
-        r.fail(k + ":throws", [&] { return ctx() + " threw " + oc + " (" + what + "), expected " + show1(want); });
-      } else if (got != want) {
-        r.fail(k + ":wrong-value", [&] { return ctx() + " -> " + show1(got) + ", reference definition gives " + show1(want); });
-      } else r.ok(unterminated ? "unterminated allowed" : (want == s ? "no comment" : "comment removed"));
+      r.poison_errno();
+      string oc = vf::outcome([&] { real(got); }, &what);
+      bool good = must_throw ? (oc == "runtime_error") : (oc == "ok" && got == want);
+      if (good) {
+        r.ok(must_throw ? "rejected: runtime_error" : (want.empty() && !s.empty() ? "everything removed" : (want == s ? "unchanged" : "partly removed")));
+        continue;
+      }
+      // attribute: wrong on a fresh object too, or only on an object that held something else before?
+      bool fresh_good = true;
+      if (prior != 0) {
+        Str f = s;
+        string oc0 = vf::outcome([&] { real(f); });
+        fresh_good = must_throw ? (oc0 == "runtime_error") : (oc0 == "ok" && f == want);
+      } else fresh_good = false;
+      string kind = fresh_good ? ":depends-on-prior-object-state" : (must_throw ? ":unterminated-not-rejected" : (oc != "ok" ? ":throws" : ":wrong-value"));
+      r.fail(fname + kind, [&] {
+        return ctx() + " -> " + (oc == "ok" ? show_any(got) : "threw " + oc + " (" + what + ")") + ", expected " + (must_throw ? string("runtime_error (comment never closed)") : show_any(want)) +
+            (fresh_good ? "; the same value in a fresh object gives the expected result" : "");
+      });
     }
   });
-}
-
-// ---------- string_printf --------------------------------------------------------------------------------
-
-string big_vsnprintf(size_t cap, const char* fmt, ...) __attribute__((format(printf, 2, 3)));
-string big_vsnprintf(size_t cap, const char* fmt, ...) {
-  string buf(cap + 16, '\0');
-  va_list va;
-  va_start(va, fmt);
-  int n = vsnprintf(buf.data(), buf.size(), fmt, va);
-  va_end(va);
-  if (n < 0 || (size_t)n >= buf.size()) return "<vsnprintf failed>";
-  buf.resize(n);
-  return buf;
-}
-
-string pattern(size_t n) {
-  string s(n, 'x');
-  for (size_t i = 0; i < n; i++) s[i] = (char)('!' + (i * 7 + i / 251) % 90);
-  return s;
 }
 
 }  // namespace
 
 // =====================================================================================================
 
-VF_SECTION(split, 8, 8, 90) {
-  check_split<string>(r, "split", "ab,", 8, true);
-  r.bound = "split(std::string): all strings over {a,b,','} up to length 8 x delimiter in {a,b,','} x max_splits in {0,1,2,3,9}; laws + reference scanner + the library's join as inverse (char and std::string delimiter)";
+VF_SECTION(split, 8, 16, 90) {
+  const size_t maxlen = r.thorough() ? 10 : 9;
+  check_split<string>(r, "split", chars_of<char>("ab,"), chars_of<char>("ab,"), maxlen, LIMITS, true);
+  // embedded NUL, high-bit bytes, a delimiter that never occurs
+  const size_t maxlen2 = r.thorough() ? 6 : 5;
+  check_split<string>(r, "split", {'a', '\0', '\xff', '\x7f'}, {'\0', '\xff', '\x7f', 'z'}, maxlen2, LIMITS, true);
+  // every power-of-two neighbourhood as max_splits
+  const size_t maxlen3 = r.thorough() ? 6 : 4;
+  check_split<string>(r, "split", chars_of<char>("ab,"), {','}, maxlen3, pow2_neighbours(), false);
+  r.bound = vf::fmt("split(std::string): all strings over {a,b,','} up to length %zu x delimiter in {a,b,','} x max_splits in {0,1,2,3,9,2^31-1,2^31,2^32-1,2^32,2^63-1,2^63,SIZE_MAX-1,SIZE_MAX} "
+      "(max_splits==0 also with the argument defaulted); all strings over {a,NUL,0xFF,0x7F} up to length %zu x delimiter in {NUL,0xFF,0x7F,z} x the same max_splits; "
+      "all strings over {a,b,','} up to length %zu x every 2^k-1, 2^k, 2^k+1 (k<64) as max_splits; laws + reference scanner + the library's join as inverse (char and std::string delimiter)", maxlen, maxlen2, maxlen3);
 }
 
-VF_SECTION(wsplit, 8, 8, 90) {
-  check_split<wstring>(r, "split(wstring)", "ab,", 8, false);
-  r.bound = "split(std::wstring): same space as section split (laws + reference scanner)";
+VF_SECTION(wsplit, 8, 16, 90) {
+  const size_t maxlen = r.thorough() ? 10 : 9;
+  check_split<wstring>(r, "split(wstring)", chars_of<wchar_t>("ab,"), chars_of<wchar_t>("ab,"), maxlen, LIMITS, false);
+  // genuinely wide characters: values whose low byte / low 16 bits equal ',' and a negative wchar_t
+  const vector<wchar_t> wide = {L',', (wchar_t)0x12C, (wchar_t)0x2C002C, (wchar_t)(int32_t)0x8000002C, (wchar_t)0};
+  const size_t maxlen2 = r.thorough() ? 6 : 5;
+  check_split<wstring>(r, "split(wstring)", wide, wide, maxlen2, LIMITS, false);
+  const size_t maxlen3 = r.thorough() ? 6 : 4;
+  check_split<wstring>(r, "split(wstring)", chars_of<wchar_t>("ab,"), {L','}, maxlen3, pow2_neighbours(), false);
+  r.bound = vf::fmt("split(std::wstring): same spaces as section split (lengths %zu / %zu / %zu); the second alphabet is {',', 0x12C, 0x2C002C, (wchar_t)0x8000002C, NUL} (values that alias ',' in their low 8/16 bits, a negative wchar_t) with each of them as delimiter", maxlen, maxlen2, maxlen3);
 }
 
-VF_SECTION(join, 1, 1, 90) {
+VF_SECTION(join, 4, 4, 90) {
   r.note("join");
   for (size_t n = 0; n <= 4; n++) {
-    vf::Odometer od(vector<uint32_t>(n, 4));
+    vf::Odometer od(vector<uint32_t>(n, 5));
     for (; !od.done; od.step()) {
       if (!r.take()) continue;
       vector<string> items;
-      for (size_t i = 0; i < n; i++) items.push_back(JOIN_POOL[od.d[i]]);
-      if (r.wants_desc()) r.desc("join(" + showv(items) + ") over vector/deque/list/set/multiset x delimiters \"\", \",\", \"--\" (std::string, const char*, char) and without delimiter");
+      bool cstr_ok = true;
+      for (size_t i = 0; i < n; i++) {
+        items.push_back(JOIN_POOL[od.d[i]]);
+        if (od.d[i] >= JOIN_POOL_CSTR) cstr_ok = false;
+      }
+      if (r.wants_desc()) r.desc("join(" + showv(items) + ") over 10 container types x delimiters \"\", \",\", \"--\", \",\\0\" as (const) std::string, string_view, const char*, literal, (const) char, and without delimiter");
       if (n >= 2) r.nontriv();
       bool bad = false;
-      check_join_container<vector<string>>(r, "vector", items, bad);
-      check_join_container<std::deque<string>>(r, "deque", items, bad);
-      check_join_container<std::list<string>>(r, "list", items, bad);
-      check_join_container<std::set<string>>(r, "set", items, bad);
-      check_join_container<std::multiset<string>>(r, "multiset", items, bad);
+      check_join_strings<vector<string>>(r, "vector", items, bad);
+      check_join_strings<std::deque<string>>(r, "deque", items, bad);
+      check_join_strings<std::list<string>>(r, "list", items, bad);
+      check_join_strings<std::forward_list<string>>(r, "forward_list", items, bad);
+      check_join_strings<std::set<string>>(r, "set", items, bad);
+      check_join_strings<std::multiset<string>>(r, "multiset", items, bad);
+      {
+        std::span<const string> sp(items.data(), items.size());
+        check_join(r, "span", sp, items, bad);
+      }
+      {
+        vector<std::string_view> svs(items.begin(), items.end());
+        check_join(r, "vector<string_view>", svs, items, bad);
+      }
+      if (n == 3) {
+        std::array<string, 3> arr = {items[0], items[1], items[2]};
+        check_join(r, "std::array", arr, items, bad);
+        string carr[3] = {items[0], items[1], items[2]};
+        check_join(r, "string[3]", carr, items, bad);
+      }
+      if (cstr_ok) {
+        vector<const char*> ptrs;
+        for (const string& it : items) ptrs.push_back(it.c_str());
+        check_join(r, "vector<const char*>", ptrs, items, bad);
+        bool all_single = true;
+        for (const string& it : items) if (it.size() != 1) all_single = false;
+        if (all_single) {
+          vector<char> chars;
+          for (const string& it : items) chars.push_back(it[0]);
+          check_join(r, "vector<char>", chars, items, bad);
+          string as_string;
+          for (const string& it : items) as_string.push_back(it[0]);
+          check_join(r, "std::string (items are its characters)", as_string, items, bad);
+        }
+      }
+      // the delimiter is one of the items (same object)
+      if (n >= 1) {
+        for (size_t i = 0; i < n; i++) {
+          string want = ref_join<string>(items, items[i]);
+          string g = phosg::join(items, items[i]);
+          if (g != want) {
+            bad = true;
+            r.fail("join:definition", [&] { return vf::fmt("join(vector%s, items[%zu]) (delimiter aliases an item) == %s, expected %s", showv(items).c_str(), i, vf::show(g).c_str(), vf::show(want).c_str()); });
+          }
+        }
+      }
       if (!bad) r.ok(n == 0 ? "empty list" : (items[0].empty() ? "first item empty" : "first item non-empty"));
     }
   }
-  r.bound = "join: every list of 0..4 items from {\"\",a,b,ab} x delimiter in {\"\", \",\", \"--\"} (as std::string, const char*, char) x {vector,deque,list,set,multiset}, plus join without delimiter";
+  r.bound = "join: every list of 0..4 items from {\"\",a,b,ab,NUL} x delimiter in {\"\", \",\", \"--\", \",\\0\"} as std::string, const std::string, std::string_view, const char*, string literal, char, const char "
+            "x {vector,deque,list,forward_list,set,multiset,span,vector<string_view>,std::array,C array,vector<const char*>,vector<char>,std::string-as-container}, delimiter aliasing an item, plus join without delimiter";
 }
 
 VF_SECTION(split_context, 16, 16, 90) {
   size_t maxlen = r.thorough() ? 7 : 6;
-  check_split_context(r, "a,()[]'\"\\>", maxlen, ',');
-  check_split_context(r, "a,(){<'\\", r.thorough() ? 6 : 5, 'a');
-  r.bound = vf::fmt("split_context: all strings over {a , ( ) [ ] ' \" \\ >} up to length %zu with delimiter ',' and over {a , ( ) { < ' \\} up to length %zu with delimiter 'a', x max_splits in {0,1,2,3,9}", maxlen, maxlen - 1);
+  check_split_context(r, "a,()[]'\"\\>", maxlen, ',', LIMITS, LIMITS_SHORT);
+  check_split_context(r, "a,(){<'\\", maxlen - 1, 'a', LIMITS, LIMITS_SHORT);
+  // embedded NUL as an ordinary character and as the delimiter
+  check_split_context(r, string("a()'\\") + string(1, '\0'), maxlen - 1, '\0', LIMITS, LIMITS_SHORT);
+  check_split_context(r, "a,('", 4, ',', pow2_neighbours(), pow2_neighbours());
+  r.bound = vf::fmt("split_context: all strings over {a , ( ) [ ] ' \" \\ >} up to length %zu with delimiter ',', over {a , ( ) { < ' \\} up to length %zu with delimiter 'a', over {a ( ) ' \\ NUL} up to length %zu with delimiter NUL, "
+      "x max_splits in {0,1,2,3,9,2^31-1,2^31,2^32-1,2^32,2^63-1,2^63,SIZE_MAX-1,SIZE_MAX} (strings of the maximal length: {0,1,2,3,9,SIZE_MAX}; 0 also defaulted); over {a , ( '} up to length 4 x every 2^k-1,2^k,2^k+1", maxlen, maxlen - 1, maxlen - 1);
 }
 
 VF_SECTION(split_args, 16, 16, 90) {
   r.note("split_args");
   const string alphabet = "a \t\"'\\";
-  const size_t args_maxlen = r.thorough() ? 8 : 7;
+  const size_t args_maxlen = r.thorough() ? 9 : 8;
   vf::all_strings(alphabet, args_maxlen, [&](const string& s) {
     if (!r.take()) return;
     if (r.wants_desc()) r.desc("split_args(" + vf::show(s) + ")");
     vector<string> got;
     string what;
+    r.poison_errno();
     string oc = vf::outcome([&] { got = phosg::split_args(s); }, &what);
     ArgsRef ref = ref_split_args(s);
     if (s.find_first_of(" \t\"'\\") != string::npos) r.nontriv();
@@ -585,59 +430,72 @@ VF_SECTION(split_args, 16, 16, 90) {
   r.bound = vf::fmt("split_args: all strings over {a, space, tab, \", ', \\} up to length %zu", args_maxlen);
 }
 
-VF_SECTION(strip, 8, 8, 90) {
-  const string alphabet = string("a \t\n\r") + string(1, '\0');
-  const size_t maxlen = r.thorough() ? 7 : 6;
-  struct Fn {
-    const char* name;
-    void (*real)(string&);
-    string (*ref)(string);
-  };
-  static const Fn fns[] = {
-      {"strip_trailing_zeroes", [](string& s) { phosg::strip_trailing_zeroes(s); }, [](string s) { return ref_rstrip_zero(s); }},
-      {"strip_trailing_whitespace", [](string& s) { phosg::strip_trailing_whitespace(s); }, [](string s) { return ref_rstrip_ws(s); }},
-      {"strip_leading_whitespace", [](string& s) { phosg::strip_leading_whitespace(s); }, [](string s) { return ref_lstrip_ws(s); }},
-      {"strip_whitespace", [](string& s) { phosg::strip_whitespace(s); }, [](string s) { return ref_lstrip_ws(ref_rstrip_ws(s)); }},
-  };
-  for (const Fn& f : fns) {
-    r.note(f.name);
-    vf::all_strings(alphabet, maxlen, [&](const string& s) {
-      if (!r.take()) return;
-      if (r.wants_desc()) r.desc(string(f.name) + "(" + vf::show(s) + ")");
-      string got = s;
-      string what;
-      string oc = vf::outcome([&] { f.real(got); }, &what);
-      string want = f.ref(s);
-      if (want != s) r.nontriv();
-      if (oc != "ok") r.fail(string(f.name) + ":throws", [&] { return string(f.name) + "(" + vf::show(s) + ") threw " + oc + " (" + what + ")"; });
-      else if (got != want) r.fail(string(f.name) + ":wrong-value", [&] { return string(f.name) + "(" + vf::show(s) + ") -> " + vf::show(got) + ", reference definition gives " + vf::show(want); });
-      else r.ok(want.empty() && !s.empty() ? "everything stripped" : (want == s ? "unchanged" : "partly stripped"));
-    });
-  }
-  // the only strip_* template besides strip_multiline_comments that can be instantiated for std::wstring
-  // (the whitespace variants pass a narrow literal to wstring::find_*_of and do not compile)
-  r.note("strip_trailing_zeroes(wstring)");
-  vf::all_strings(alphabet, maxlen, [&](const string& s) {
-    if (!r.take()) return;
-    wstring w = widen(s), got = w;
-    if (r.wants_desc()) r.desc("strip_trailing_zeroes(" + showw(w) + ")");
-    string oc = vf::outcome([&] { phosg::strip_trailing_zeroes(got); });
-    wstring want = ref_rstrip_zero(w);
-    if (want != w) r.nontriv();
-    if (oc != "ok" || got != want) r.fail("strip_trailing_zeroes(wstring):wrong-value", [&] { return "strip_trailing_zeroes(" + showw(w) + ") -> " + (oc == "ok" ? showw(got) : oc) + ", reference gives " + showw(want); });
-    else r.ok(want.empty() && !w.empty() ? "everything stripped" : (want == w ? "unchanged" : "partly stripped"));
-  });
-  r.bound = "strip_trailing_zeroes / strip_trailing_whitespace / strip_leading_whitespace / strip_whitespace on std::string and strip_trailing_zeroes on std::wstring: all strings over {a, space, tab, LF, CR, NUL} up to length 6 (quick) / 7 (thorough)";
+VF_SECTION(strip, 16, 16, 90) {
+  const vector<char> alphabet = {'a', ' ', '\t', '\n', '\r', '\0'};
+  const size_t maxlen = r.thorough() ? 8 : 7;
+  auto changed = [](const auto& s, const auto& want) { return want != s; };
+  sweep_inplace<string>(r, "strip_trailing_zeroes", alphabet, maxlen, [](string& s) { phosg::strip_trailing_zeroes(s); }, [](const string& s, bool*) { return ref_rstrip_zero(s); }, changed);
+  sweep_inplace<string>(r, "strip_trailing_whitespace", alphabet, maxlen, [](string& s) { phosg::strip_trailing_whitespace(s); }, [](const string& s, bool*) { return ref_rstrip_ws(s); }, changed);
+  sweep_inplace<string>(r, "strip_leading_whitespace", alphabet, maxlen, [](string& s) { phosg::strip_leading_whitespace(s); }, [](const string& s, bool*) { return ref_lstrip_ws(s); }, changed);
+  sweep_inplace<string>(r, "strip_whitespace", alphabet, maxlen, [](string& s) { phosg::strip_whitespace(s); }, [](const string& s, bool*) { return ref_lstrip_ws(ref_rstrip_ws(s)); }, changed);
+  // other character bytes that must not be taken for whitespace / NUL: VT, FF, 0x80|' ', 0xA0, 0xFF
+  const vector<char> alphabet2 = {' ', '\0', '\v', '\f', '\xa0', '\xff', '\x1f'};
+  const size_t maxlen2 = r.thorough() ? 5 : 4;
+  sweep_inplace<string>(r, "strip_trailing_zeroes", alphabet2, maxlen2, [](string& s) { phosg::strip_trailing_zeroes(s); }, [](const string& s, bool*) { return ref_rstrip_zero(s); }, changed);
+  sweep_inplace<string>(r, "strip_trailing_whitespace", alphabet2, maxlen2, [](string& s) { phosg::strip_trailing_whitespace(s); }, [](const string& s, bool*) { return ref_rstrip_ws(s); }, changed);
+  sweep_inplace<string>(r, "strip_leading_whitespace", alphabet2, maxlen2, [](string& s) { phosg::strip_leading_whitespace(s); }, [](const string& s, bool*) { return ref_lstrip_ws(s); }, changed);
+  sweep_inplace<string>(r, "strip_whitespace", alphabet2, maxlen2, [](string& s) { phosg::strip_whitespace(s); }, [](const string& s, bool*) { return ref_lstrip_ws(ref_rstrip_ws(s)); }, changed);
+  // the only strip_* template besides strip_multiline_comments that can be instantiated for wide strings
+  // (the whitespace variants pass a narrow literal to wstring::find_*_of and do not compile); the wide
+  // alphabets contain characters whose low 8 / 16 bits are zero
+  const size_t wmax = r.thorough() ? 6 : 5;
+  sweep_inplace<wstring>(r, "strip_trailing_zeroes(wstring)", {L'a', L' ', (wchar_t)0, (wchar_t)0x100, (wchar_t)0x10000, (wchar_t)(int32_t)0x80000000}, wmax,
+      [](wstring& s) { phosg::strip_trailing_zeroes(s); }, [](const wstring& s, bool*) { return ref_rstrip_zero(s); }, changed);
+  sweep_inplace<std::u16string>(r, "strip_trailing_zeroes(u16string)", {u'a', (char16_t)0, (char16_t)0x100, (char16_t)0x8000}, wmax,
+      [](std::u16string& s) { phosg::strip_trailing_zeroes(s); }, [](const std::u16string& s, bool*) { return ref_rstrip_zero(s); }, changed);
+  sweep_inplace<std::u32string>(r, "strip_trailing_zeroes(u32string)", {U'a', (char32_t)0, (char32_t)0x100, (char32_t)0x10000}, wmax,
+      [](std::u32string& s) { phosg::strip_trailing_zeroes(s); }, [](const std::u32string& s, bool*) { return ref_rstrip_zero(s); }, changed);
+  r.bound = vf::fmt("strip_trailing_zeroes / strip_trailing_whitespace / strip_leading_whitespace / strip_whitespace on std::string: all strings over {a, space, tab, LF, CR, NUL} up to length %zu and over {space, NUL, VT, FF, 0xA0, 0xFF, 0x1F} up to length %zu; "
+      "strip_trailing_zeroes on std::wstring / u16string / u32string over alphabets with NUL and characters whose low 8/16 bits are zero up to length %zu; every case on %d prior object states (fresh, reserved, held blanks / NULs / comment openers, moved-from)", maxlen, maxlen2, wmax, N_PRIOR);
 }
 
-VF_SECTION(comments, 8, 8, 90) {
-  check_comments<string>(r, "strip_multiline_comments", "a/*\n", r.thorough() ? 10 : 8);
-  check_comments<wstring>(r, "strip_multiline_comments(wstring)", "a/*\n", r.thorough() ? 8 : 6);
-  r.bound = "strip_multiline_comments: all strings over {a, /, *, LF} up to length 8 (std::string) / 6 (std::wstring) x allow_unterminated; thorough: 10 / 8";
+VF_SECTION(comments, 16, 16, 90) {
+  auto has_opener = [](const auto& s, const auto&) {
+    for (size_t i = 0; i + 1 < s.size(); i++) if (s[i] == '/' && s[i + 1] == '*') return true;
+    return false;
+  };
+  auto ref_throwing = [](const auto& s, bool* must_throw) {
+    bool unterminated = false;
+    auto w = ref_strip_comments(s, &unterminated);
+    *must_throw = unterminated;
+    return w;
+  };
+  auto ref_allowing = [](const auto& s, bool* must_throw) {
+    bool unterminated = false;
+    *must_throw = false;
+    return ref_strip_comments(s, &unterminated);
+  };
+  const size_t n1 = r.thorough() ? 10 : 9, n2 = r.thorough() ? 7 : 6;
+  const vector<char> alpha = {'a', '/', '*', '\n'};
+  sweep_inplace<string>(r, "strip_multiline_comments", alpha, n1, [](string& s) { phosg::strip_multiline_comments(s, false); }, ref_throwing, has_opener);
+  sweep_inplace<string>(r, "strip_multiline_comments(allow_unterminated)", alpha, n1, [](string& s) { phosg::strip_multiline_comments(s, true); }, ref_allowing, has_opener);
+  sweep_inplace<string>(r, "strip_multiline_comments(flag defaulted)", alpha, n2, [](string& s) { phosg::strip_multiline_comments(s); }, ref_throwing, has_opener);
+  // NUL and CR are ordinary text
+  sweep_inplace<string>(r, "strip_multiline_comments", {'/', '*', '\n', '\0', '\r'}, n2, [](string& s) { phosg::strip_multiline_comments(s, false); }, ref_throwing, has_opener);
+  // wide strings: also characters that alias '/', '*', LF in their low byte
+  const vector<wchar_t> walpha = {L'a', L'/', L'*', L'\n'};
+  const vector<wchar_t> walias = {L'/', L'*', L'\n', (wchar_t)0x12F, (wchar_t)0x12A, (wchar_t)0x10A};
+  sweep_inplace<wstring>(r, "strip_multiline_comments(wstring)", walpha, n2 + 1, [](wstring& s) { phosg::strip_multiline_comments(s, false); }, ref_throwing, has_opener);
+  sweep_inplace<wstring>(r, "strip_multiline_comments(wstring, allow_unterminated)", walpha, n2 + 1, [](wstring& s) { phosg::strip_multiline_comments(s, true); }, ref_allowing, has_opener);
+  sweep_inplace<wstring>(r, "strip_multiline_comments(wstring)", walias, n2 - 1, [](wstring& s) { phosg::strip_multiline_comments(s, false); }, ref_throwing, has_opener);
+  sweep_inplace<std::u16string>(r, "strip_multiline_comments(u16string)", {u'a', u'/', u'*', u'\n'}, n2, [](std::u16string& s) { phosg::strip_multiline_comments(s, false); }, ref_throwing, has_opener);
+  sweep_inplace<std::u32string>(r, "strip_multiline_comments(u32string)", {U'a', U'/', U'*', U'\n'}, n2, [](std::u32string& s) { phosg::strip_multiline_comments(s, true); }, ref_allowing, has_opener);
+  r.bound = vf::fmt("strip_multiline_comments: all strings over {a, /, *, LF} up to length %zu (std::string, allow_unterminated false / true; %zu with the flag defaulted, %zu for std::wstring, %zu for u16string / u32string), over {/, *, LF, NUL, CR} up to length %zu, "
+      "wide alphabet {/, *, LF, 0x12F, 0x12A, 0x10A} up to length %zu; every case on %d prior object states", n1, n2, n2 + 1, n2, n2, n2 - 1, N_PRIOR);
 }
 
-VF_SECTION(affix_case_replace, 1, 1, 90) {
-  // starts_with / ends_with: all ordered pairs
+VF_SECTION(affix_case_replace, 4, 4, 90) {
+  // starts_with / ends_with: all ordered pairs (prefix longer than the string included)
   auto pairs = [&](const string& alphabet, size_t maxlen) {
     vector<string> all;
     vf::all_strings(alphabet, maxlen, [&](const string& s) { all.push_back(s); });
@@ -646,29 +504,54 @@ VF_SECTION(affix_case_replace, 1, 1, 90) {
       for (const string& p : all) {
         if (!r.take()) continue;
         if (r.wants_desc()) r.desc("starts_with/ends_with(" + vf::show(s) + ", " + vf::show(p) + ")");
-        bool ws = false, we = false;
-        if (p.size() <= s.size()) {
-          ws = we = true;
-          for (size_t i = 0; i < p.size(); i++) {
-            if (s[i] != p[i]) ws = false;
-            if (s[s.size() - p.size() + i] != p[i]) we = false;
-          }
-        }
+        bool ws = ref_starts(s, p), we = ref_ends(s, p);
+        // exact-size heap copies: a read past either argument is an ASan report
+        r.poison_errno();
         bool gs = phosg::starts_with(s, p), ge = phosg::ends_with(s, p);
         if (!p.empty() && p.size() <= s.size()) r.nontriv();
         if (gs != ws) r.fail("starts_with:wrong-value", [&] { return vf::fmt("starts_with(%s, %s) == %d, expected %d", vf::show(s).c_str(), vf::show(p).c_str(), gs, ws); });
         if (ge != we) r.fail("ends_with:wrong-value", [&] { return vf::fmt("ends_with(%s, %s) == %d, expected %d", vf::show(s).c_str(), vf::show(p).c_str(), ge, we); });
-        if (gs == ws && ge == we) r.ok(vf::fmt("starts=%d ends=%d", ws, we));
+        bool alias_ok = true;
+        if (&s == &p || s == p) {  // both parameters bound to the same object
+          bool a1 = phosg::starts_with(s, s), a2 = phosg::ends_with(s, s);
+          if (!a1 || !a2) {
+            alias_ok = false;
+            r.fail(a1 ? "ends_with:wrong-value" : "starts_with:wrong-value", [&] { return vf::fmt("%s(s, s) with s = %s (same object) == 0, expected 1", a1 ? "ends_with" : "starts_with", vf::show(s).c_str()); });
+          }
+        }
+        if (gs == ws && ge == we && alias_ok) r.ok(vf::fmt("starts=%d ends=%d", ws, we));
       }
     }
   };
   pairs("ab", 5);
   pairs(string("a") + string(1, '\0'), 4);
+  pairs(string("a\xff\x7f") + string(1, '\0'), 3);
+  // long operands (beyond the small-string buffer): s = unit^n, p = a prefix/suffix/neither of every length class
+  r.note("starts_with/ends_with (long)");
+  {
+    const size_t lens[] = {15, 16, 17, 31, 32, 33, 255, 256, 257, 4096};
+    for (size_t L : lens) {
+      for (size_t pl : {(size_t)0, (size_t)1, L - 1, L, L + 1}) {
+        for (int flip = 0; flip < 3; flip++) {  // 0: exact affix; 1: first byte differs; 2: last byte differs
+          if (!r.take()) continue;
+          string s = pattern(L) + pattern(L);
+          string pre = (s + "!").substr(0, pl), suf = pl <= s.size() ? s.substr(s.size() - pl) : "!" + s;
+          if (flip == 1 && pl) { pre[0] ^= 1; suf[0] ^= 1; }
+          if (flip == 2 && pl) { pre[pl - 1] ^= 1; suf[pl - 1] ^= 1; }
+          if (r.wants_desc()) r.desc(vf::fmt("starts_with/ends_with on a %zu-byte string with a %zu-byte affix (variant %d)", s.size(), pl, flip));
+          r.nontriv();
+          bool gs = phosg::starts_with(s, pre), ge = phosg::ends_with(s, suf);
+          bool ws = ref_starts(s, pre), we = ref_ends(s, suf);
+          if (gs != ws) r.fail("starts_with:wrong-value", [&] { return vf::fmt("starts_with(%zu-byte pattern, %zu-byte prefix variant %d) == %d, expected %d", s.size(), pl, flip, gs, ws); });
+          if (ge != we) r.fail("ends_with:wrong-value", [&] { return vf::fmt("ends_with(%zu-byte pattern, %zu-byte suffix variant %d) == %d, expected %d", s.size(), pl, flip, ge, we); });
+          if (gs == ws && ge == we) r.ok("long operands");
+        }
+      }
+    }
+  }
 
   // toupper / tolower: every single byte and every pair of bytes; reference = ASCII letters only ("C" locale)
   r.note("toupper/tolower");
-  auto up = [](unsigned char c) { return (unsigned char)((c >= 'a' && c <= 'z') ? c - 32 : c); };
-  auto lo = [](unsigned char c) { return (unsigned char)((c >= 'A' && c <= 'Z') ? c + 32 : c); };
   for (int len = 0; len <= 2; len++) {
     int total = len == 0 ? 1 : (len == 1 ? 256 : 65536);
     for (int v = 0; v < total; v++) {
@@ -677,11 +560,8 @@ VF_SECTION(affix_case_replace, 1, 1, 90) {
       if (len >= 1) s.push_back((char)(v & 0xFF));
       if (len == 2) s.push_back((char)(v >> 8));
       if (r.wants_desc()) r.desc("toupper/tolower(" + vf::show(s) + ")");
-      string wu, wl;
-      for (unsigned char c : s) {
-        wu.push_back((char)up(c));
-        wl.push_back((char)lo(c));
-      }
+      string wu = ref_upper(s), wl = ref_lower(s);
+      r.poison_errno();
       string gu = phosg::toupper(s), gl = phosg::tolower(s);
       if (wu != s || wl != s) r.nontriv();
       if (gu != wu) r.fail("toupper:wrong-value", [&] { return "toupper(" + vf::show(s) + ") == " + vf::show(gu) + ", expected " + vf::show(wu); });
@@ -689,21 +569,38 @@ VF_SECTION(affix_case_replace, 1, 1, 90) {
       if (gu == wu && gl == wl) r.ok(wu != s ? "case: lower letters mapped" : (wl != s ? "case: upper letters mapped" : "case: unchanged"));
     }
   }
+  // long inputs (result far longer than the small-string buffer), all byte values cycling
+  for (size_t L : {(size_t)15, (size_t)16, (size_t)17, (size_t)255, (size_t)256, (size_t)257, (size_t)4096, (size_t)65536, (size_t)1048576}) {
+    for (int start = 0; start < 2; start++) {
+      if (!r.take()) continue;
+      string s(L, '\0');
+      for (size_t i = 0; i < L; i++) s[i] = (char)((i * (start ? 7 : 1) + (start ? 'A' : 0)) & 0xFF);
+      if (r.wants_desc()) r.desc(vf::fmt("toupper/tolower on a %zu-byte string cycling through all byte values (variant %d)", L, start));
+      r.nontriv();
+      string gu = phosg::toupper(s), gl = phosg::tolower(s);
+      if (gu != ref_upper(s)) r.fail("toupper:wrong-value", [&] { return vf::fmt("toupper of a %zu-byte string cycling through all byte values differs from the ASCII mapping (result size %zu)", L, gu.size()); });
+      else if (gl != ref_lower(s)) r.fail("tolower:wrong-value", [&] { return vf::fmt("tolower of a %zu-byte string cycling through all byte values differs from the ASCII mapping (result size %zu)", L, gl.size()); });
+      else r.ok("case: long input");
+    }
+  }
 
   // str_replace_all (non-empty target): leftmost, non-overlapping, left to right
   r.note("str_replace_all");
-  const vector<string> targets = {"a", "b", "aa", "ab", "ba", "bb"};
-  const vector<string> repls = {"", "a", "ab", "ba"};
-  auto ref_replace = [](const string& s, const string& t, const string& rep) {
-    string out;
-    size_t i = 0;
-    while (i < s.size()) {
-      if (i + t.size() <= s.size() && memcmp(s.data() + i, t.data(), t.size()) == 0) {
-        out += rep;
-        i += t.size();
-      } else out.push_back(s[i++]);
-    }
-    return out;
+  const vector<string> targets = {"a", "b", "aa", "ab", "ba", "bb", "aba"};
+  const vector<string> repls = {"", "a", "ab", "ba", "abab"};
+  auto one_replace = [&](const string& s, const string& t, const string& rep, bool alias) {
+    string want = ref_replace(s, t, rep);
+    string got;
+    // exact-size heap copies of the C strings: reading past the terminator is an ASan report
+    char* tp = strdup(t.c_str());
+    char* rp = strdup(rep.c_str());
+    r.poison_errno();
+    string oc = vf::outcome([&] { got = alias ? phosg::str_replace_all(s, s.c_str(), s.c_str()) : phosg::str_replace_all(s, tp, rp); });
+    free(tp);
+    free(rp);
+    if (s.find(t) != string::npos) r.nontriv();
+    if (oc != "ok" || got != want) r.fail("str_replace_all:wrong-value", [&] { return "str_replace_all(" + shorten(s) + ", " + shorten(t) + ", " + shorten(rep) + (alias ? ") [target and replacement point into s itself]" : ")") + " -> " + (oc == "ok" ? shorten(got) + vf::fmt(" (%zu bytes)", got.size()) : oc) + ", expected " + shorten(want) + vf::fmt(" (%zu bytes)", want.size()); });
+    else r.ok(s.find(t) == string::npos ? "replace: no occurrence" : "replace: replaced");
   };
   auto replace_over = [&](const string& alphabet, size_t maxlen) {
     vf::all_strings(alphabet, maxlen, [&](const string& s) {
@@ -711,151 +608,369 @@ VF_SECTION(affix_case_replace, 1, 1, 90) {
         for (const string& rep : repls) {
           if (!r.take()) continue;
           if (r.wants_desc()) r.desc("str_replace_all(" + vf::show(s) + ", " + vf::show(t) + ", " + vf::show(rep) + ")");
-          string want = ref_replace(s, t, rep);
-          string got;
-          string oc = vf::outcome([&] { got = phosg::str_replace_all(s, t.c_str(), rep.c_str()); });
-          if (s.find(t) != string::npos) r.nontriv();
-          if (oc != "ok" || got != want) r.fail("str_replace_all:wrong-value", [&] { return "str_replace_all(" + vf::show(s) + ", " + vf::show(t) + ", " + vf::show(rep) + ") -> " + (oc == "ok" ? vf::show(got) : oc) + ", expected " + vf::show(want); });
-          else r.ok(s.find(t) == string::npos ? "replace: no occurrence" : "replace: replaced");
+          one_replace(s, t, rep, false);
+        }
+      }
+      // target and replacement are the subject's own buffer (non-empty, NUL-free subjects only)
+      if (!s.empty() && s.find('\0') == string::npos) {
+        if (r.take()) {
+          if (r.wants_desc()) r.desc("str_replace_all(s, s.c_str(), s.c_str()) with s = " + vf::show(s));
+          one_replace(s, s, s, true);
         }
       }
     });
   };
   replace_over("ab", 7);
   replace_over(string("ab") + string(1, '\0'), 5);
-  r.bound = "starts_with/ends_with: all ordered pairs over {a,b}^<=5 and {a,NUL}^<=4; toupper/tolower: all byte strings of length <=2; str_replace_all: s in {a,b}^<=7 and {a,b,NUL}^<=5 x target in {a,b}^{1,2} x replacement in {\"\",a,ab,ba}";
+  // results and operands far longer than any internal buffer
+  {
+    const size_t reps[] = {15, 16, 17, 255, 256, 257, 1023, 1024, 1025, 4096, 65536};
+    const char* units[] = {"a", "ab", "xab", "abx"};
+    const char* long_t[] = {"a", "ab", "b"};
+    for (size_t n : reps) {
+      for (const char* u : units) {
+        for (const char* t : long_t) {
+          for (int rl = 0; rl < 3; rl++) {  // replacement: empty / one byte / 16 bytes
+            if (!r.take()) continue;
+            string s;
+            for (size_t i = 0; i < n; i++) s += u;
+            string rep = rl == 0 ? "" : (rl == 1 ? "Q" : "0123456789abcdef");
+            if (r.wants_desc()) r.desc(vf::fmt("str_replace_all(\"%s\" x %zu, \"%s\", %s)", u, n, t, vf::show(rep).c_str()));
+            one_replace(s, t, rep, false);
+          }
+        }
+      }
+    }
+    // long target and long replacement
+    for (size_t tl : {(size_t)15, (size_t)16, (size_t)17, (size_t)300, (size_t)5000}) {
+      for (int where = 0; where < 4; where++) {  // occurrence at the start / middle / end / twice adjacent
+        if (!r.take()) continue;
+        string t = pattern(tl), rep = pattern(tl * 2 + 1);
+        for (char& c : rep) c = (char)(c == 'z' ? 'y' : c + 1);
+        string s = where == 0 ? t + "tail" : (where == 1 ? "head" + t + "tail" : (where == 2 ? "head" + t : t + t));
+        if (r.wants_desc()) r.desc(vf::fmt("str_replace_all with a %zu-byte target (placement %d) and a %zu-byte replacement", tl, where, rep.size()));
+        one_replace(s, t, rep, false);
+      }
+    }
+  }
+  r.bound = "starts_with/ends_with: all ordered pairs over {a,b}^<=5, {a,NUL}^<=4, {a,0xFF,0x7F,NUL}^<=3 (+ both parameters the same object), 150 long-operand cases (15..8192 bytes, affix exact / first byte off / last byte off); "
+            "toupper/tolower: all byte strings of length <=2 and 18 long inputs up to 1 MiB over all byte values; str_replace_all: s in {a,b}^<=7 and {a,b,NUL}^<=5 x 7 targets x 5 replacements, target/replacement aliasing s, "
+            "396 long subjects (unit x 15..65536) and 20 long-target cases (15..5000 bytes)";
 }
 
-VF_SECTION(skip, 4, 4, 90) {
+VF_SECTION(skip, 16, 16, 90) {
+  const size_t maxlen = r.thorough() ? 8 : 7;
   // std::string overloads: NUL is an ordinary non-whitespace character; const char* overloads: the
   // string ends at the terminator (exact-size heap copy so that a read past it is an ASan report)
   const string alpha_str = string("a \t\n\r") + string(1, '\0');
+  // offsets beyond the end (std::string overloads only: nothing to skip, the offset comes back unchanged)
+  const size_t FAR[] = {1, 2, 17, 0x7FFFFFFFull, 0x80000000ull, 0xFFFFFFFFull, 0x100000000ull, 0x7FFFFFFFFFFFFFFFull, 0x8000000000000000ull, SIZE_MAX - 1, SIZE_MAX};
   r.note("skip_*(std::string)");
-  auto first_from = [](const string& s, size_t off, bool want_ws) {
-    // first index >= off whose character is (not) whitespace, or s.size()
-    size_t i = off;
-    for (; i < s.size(); i++) {
-      bool ws = (s[i] == ' ' || s[i] == '\t' || s[i] == '\r' || s[i] == '\n');
-      if (ws == want_ws) break;
-    }
-    return i;
-  };
-  vf::all_strings(alpha_str, 6, [&](const string& s) {
-    for (size_t off = 0; off <= s.size(); off++) {
+  vf::all_strings(alpha_str, maxlen, [&](const string& s) {
+    const size_t n_off = s.size() + 1 + sizeof(FAR) / sizeof(FAR[0]);
+    for (size_t oi = 0; oi < n_off; oi++) {
       if (!r.take()) continue;
+      size_t off = oi <= s.size() ? oi : (FAR[oi - s.size() - 1] < 0x1000 ? s.size() + FAR[oi - s.size() - 1] : FAR[oi - s.size() - 1]);
       if (r.wants_desc()) r.desc(vf::fmt("skip_*(std::string %s, %zu)", vf::show(s).c_str(), off));
-      size_t w_ws = first_from(s, off, false), w_nws = first_from(s, off, true), w_word = first_from(s, w_nws, false);
-      size_t g_ws = phosg::skip_whitespace(s, off), g_nws = phosg::skip_non_whitespace(s, off), g_word = phosg::skip_word(s, off);
+      size_t w_ws = ref_first_from(s, off, false), w_nws = ref_first_from(s, off, true), w_word = ref_first_from(s, w_nws, false);
+      // exact-size heap object so that an access past size()+1 is an ASan report even for short strings
+      std::unique_ptr<string> hs(new string(s));
+      r.poison_errno();
+      size_t g_ws = phosg::skip_whitespace(*hs, off), g_nws = phosg::skip_non_whitespace(*hs, off), g_word = phosg::skip_word(*hs, off);
       if (w_ws != off || w_nws != off) r.nontriv();
       if (g_ws != w_ws) r.fail("skip_whitespace(string):wrong-value", [&] { return vf::fmt("skip_whitespace(%s, %zu) == %zu, expected %zu", vf::show(s).c_str(), off, g_ws, w_ws); });
       if (g_nws != w_nws) r.fail("skip_non_whitespace(string):wrong-value", [&] { return vf::fmt("skip_non_whitespace(%s, %zu) == %zu, expected %zu", vf::show(s).c_str(), off, g_nws, w_nws); });
       if (g_word != w_word) r.fail("skip_word(string):wrong-value", [&] { return vf::fmt("skip_word(%s, %zu) == %zu, expected %zu", vf::show(s).c_str(), off, g_word, w_word); });
-      if (g_ws == w_ws && g_nws == w_nws && g_word == w_word) r.ok(off == s.size() ? "string: offset at end" : "string: offset inside");
+      if (g_ws == w_ws && g_nws == w_nws && g_word == w_word) r.ok(off > s.size() ? "string: offset past the end" : (off == s.size() ? "string: offset at end" : "string: offset inside"));
     }
   });
   r.note("skip_*(const char*)");
-  vf::all_strings("a \t\n\r", 6, [&](const string& s) {
+  vf::all_strings("a \t\n\r", maxlen, [&](const string& s) {
     for (size_t off = 0; off <= s.size(); off++) {
       if (!r.take()) continue;
       if (r.wants_desc()) r.desc(vf::fmt("skip_*(const char* %s, %zu)", vf::show(s).c_str(), off));
       char* p = (char*)malloc(s.size() + 1);
       memcpy(p, s.c_str(), s.size() + 1);
-      size_t w_ws = first_from(s, off, false), w_nws = first_from(s, off, true), w_word = first_from(s, w_nws, false);
+      size_t w_ws = ref_first_from(s, off, false), w_nws = ref_first_from(s, off, true), w_word = ref_first_from(s, w_nws, false);
+      r.poison_errno();
       size_t g_ws = phosg::skip_whitespace((const char*)p, off), g_nws = phosg::skip_non_whitespace((const char*)p, off), g_word = phosg::skip_word((const char*)p, off);
+      // the non-const char* spelling must reach the same overload
+      size_t g_ws2 = phosg::skip_whitespace(p, off);
       free(p);
       if (w_ws != off || w_nws != off) r.nontriv();
-      if (g_ws != w_ws) r.fail("skip_whitespace(cstr):wrong-value", [&] { return vf::fmt("skip_whitespace((const char*)%s, %zu) == %zu, expected %zu", vf::show(s).c_str(), off, g_ws, w_ws); });
+      if (g_ws != w_ws || g_ws2 != w_ws) r.fail("skip_whitespace(cstr):wrong-value", [&] { return vf::fmt("skip_whitespace((const char*)%s, %zu) == %zu, expected %zu", vf::show(s).c_str(), off, g_ws != w_ws ? g_ws : g_ws2, w_ws); });
       if (g_nws != w_nws) r.fail("skip_non_whitespace(cstr):wrong-value", [&] { return vf::fmt("skip_non_whitespace((const char*)%s, %zu) == %zu, expected %zu", vf::show(s).c_str(), off, g_nws, w_nws); });
       if (g_word != w_word) r.fail("skip_word(cstr):wrong-value", [&] { return vf::fmt("skip_word((const char*)%s, %zu) == %zu, expected %zu", vf::show(s).c_str(), off, g_word, w_word); });
-      if (g_ws == w_ws && g_nws == w_nws && g_word == w_word) r.ok(off == s.size() ? "cstr: offset at terminator" : "cstr: offset inside");
+      if (g_ws == w_ws && g_ws2 == w_ws && g_nws == w_nws && g_word == w_word) r.ok(off == s.size() ? "cstr: offset at terminator" : "cstr: offset inside");
     }
   });
-  r.bound = "skip_whitespace / skip_non_whitespace / skip_word: std::string overloads on all strings over {a, space, tab, LF, CR, NUL}^<=6, const char* overloads on exact-size heap copies of all strings over {a, space, tab, LF, CR}^<=6, x every offset 0..len";
+  // long runs (beyond any small-string buffer): run of n blanks / non-blanks followed by the other class
+  r.note("skip_*(long)");
+  for (size_t n : {(size_t)15, (size_t)16, (size_t)17, (size_t)255, (size_t)256, (size_t)257, (size_t)4096, (size_t)65536}) {
+    for (int shape = 0; shape < 4; shape++) {
+      if (!r.take()) continue;
+      string s = shape == 0 ? string(n, ' ') + "x" : (shape == 1 ? string(n, 'x') + " " : (shape == 2 ? string(n, '\n') : string(n, 'x') + string(n, '\t') + "y"));
+      if (r.wants_desc()) r.desc(vf::fmt("skip_* on a long run (n=%zu, shape %d), both overloads, offsets 0, 1, n-1, n, size", n, shape));
+      r.nontriv();
+      bool bad = false;
+      for (size_t off : {(size_t)0, (size_t)1, n - 1, n, s.size()}) {
+        size_t w_ws = ref_first_from(s, off, false), w_nws = ref_first_from(s, off, true), w_word = ref_first_from(s, w_nws, false);
+        size_t g[6] = {phosg::skip_whitespace(s, off), phosg::skip_non_whitespace(s, off), phosg::skip_word(s, off),
+            phosg::skip_whitespace(s.c_str(), off), phosg::skip_non_whitespace(s.c_str(), off), phosg::skip_word(s.c_str(), off)};
+        size_t w[6] = {w_ws, w_nws, w_word, w_ws, w_nws, w_word};
+        static const char* keys[6] = {"skip_whitespace(string)", "skip_non_whitespace(string)", "skip_word(string)", "skip_whitespace(cstr)", "skip_non_whitespace(cstr)", "skip_word(cstr)"};
+        for (int i = 0; i < 6; i++) {
+          if (g[i] != w[i]) {
+            bad = true;
+            r.fail(string(keys[i]) + ":wrong-value", [&] { return vf::fmt("%s on a long run (n=%zu, shape %d) from offset %zu == %zu, expected %zu", keys[i], n, shape, off, g[i], w[i]); });
+          }
+        }
+      }
+      if (!bad) r.ok("long runs");
+    }
+  }
+  r.bound = vf::fmt("skip_whitespace / skip_non_whitespace / skip_word: std::string overloads on all strings over {a, space, tab, LF, CR, NUL}^<=%zu x every offset 0..len and past the end {len+1, len+2, len+17, 2^31-1, 2^31, 2^32-1, 2^32, 2^63-1, 2^63, SIZE_MAX-1, SIZE_MAX}; "
+            "const char* overloads on exact-size heap copies of all strings over {a, space, tab, LF, CR}^<=%zu x every offset 0..len; 32 long-run cases (15..65536) on both overloads", maxlen, maxlen);
 }
 
-VF_SECTION(string_printf, 1, 1, 120) {
+// ---------- string_printf / string_vprintf ----------------------------------------------------------------
+
+namespace {
+
+struct PrintfCase {
+  string what;   // description
+  string want;   // by definition
+  string xcheck; // vsnprintf into a big buffer ("" + xcheck_exact: want is exact by construction)
+  bool xcheck_exact = false;
+  std::function<string()> via_printf, via_vprintf_fn;
+};
+
+void run_printf_case(vf::Run& r, const PrintfCase& c) {
+  if (r.wants_desc()) r.desc(c.what);
+  r.nontriv();
+  if (!c.xcheck_exact && c.xcheck != c.want) {
+    r.fail("harness:printf-reference-mismatch", [&] { return "internal: constructed expectation and vsnprintf disagree for " + c.what + vf::fmt(" (%zu vs %zu bytes)", c.want.size(), c.xcheck.size()); });
+    return;
+  }
+  r.xchecked++;
+  bool bad = false;
+  for (int entry = 0; entry < 2; entry++) {
+    const char* fn = entry ? "string_vprintf" : "string_printf";
+    string got;
+    r.poison_errno();
+    string oc = vf::outcome([&] { got = entry ? c.via_vprintf_fn() : c.via_printf(); });
+    if (oc != "ok") {
+      bad = true;
+      r.fail(string(fn) + ":throws", [&] { return string(fn) + ": " + c.what + vf::fmt(" (a %zu-byte result) threw %s", c.want.size(), oc.c_str()); });
+    } else if (got.size() != c.want.size()) {
+      bad = true;
+      r.fail(string(fn) + ":wrong-length", [&] { return string(fn) + ": " + c.what + vf::fmt(": result has %zu bytes, expected %zu", got.size(), c.want.size()); });
+    } else if (got != c.want) {
+      bad = true;
+      size_t i = 0;
+      while (i < got.size() && got[i] == c.want[i]) i++;
+      r.fail(string(fn) + ":wrong-value", [&] { return string(fn) + ": " + c.what + vf::fmt(" (a %zu-byte result) differs from the expected text at offset %zu", c.want.size(), i); });
+    }
+  }
+  if (!bad) r.ok(c.want.size() > 1024 ? "result longer than 1 KiB" : "result up to 1 KiB");
+}
+
+string pad_to(const string& body, long long width, char fill = ' ') {
+  size_t aw = (size_t)(width < 0 ? -width : width);
+  if (body.size() >= aw) return body;
+  return width < 0 ? body + string(aw - body.size(), ' ') : string(aw - body.size(), fill) + body;
+}
+
+}  // namespace
+
+VF_SECTION(string_printf, 8, 8, 120) {
   r.note("string_printf");
-  const size_t lens[] = {0, 1, 255, 256, 1023, 1024, 1025, 4096, 65536, 1048576};
+  // (a) result-length sweep: every length around the classic buffer sizes
+  vector<size_t> lens;
+  for (size_t L = 0; L <= 300; L++) lens.push_back(L);
+  for (size_t L : {(size_t)511, (size_t)512, (size_t)513, (size_t)1023, (size_t)1024, (size_t)1025, (size_t)2047, (size_t)2048, (size_t)2049, (size_t)4095, (size_t)4096, (size_t)4097,
+           (size_t)8191, (size_t)8192, (size_t)8193, (size_t)16384, (size_t)32767, (size_t)32768, (size_t)65535, (size_t)65536, (size_t)65537, (size_t)1048575, (size_t)1048576})
+    lens.push_back(L);
   for (size_t L : lens) {
     for (int form = 0; form < 5; form++) {
       if (!r.take()) continue;
+      PrintfCase c;
       static const char* fnames[] = {"%s", "%*d", "%c%s%c (NUL characters)", "%*.3f", "%s%.3f"};
-      if (r.wants_desc()) r.desc(vf::fmt("string_printf(\"%s\") with result length %zu", fnames[form], L));
-      string got, want, xcheck;
+      c.what = vf::fmt("(\"%s\") with result length %zu", fnames[form], L);
       bool skip = false;
-      string oc;
+      string arg;
       switch (form) {
-        case 0: {
-          string arg = pattern(L);
-          want = arg;
-          oc = vf::outcome([&] { got = phosg::string_printf("%s", arg.c_str()); });
-          xcheck = big_vsnprintf(L, "%s", arg.c_str());
+        case 0:
+          arg = pattern(L);
+          c.want = arg;
+          c.via_printf = [&] { return phosg::string_printf("%s", arg.c_str()); };
+          c.via_vprintf_fn = [&] { return via_vprintf("%s", arg.c_str()); };
+          c.xcheck = big_vsnprintf(L, "%s", arg.c_str());
           break;
-        }
-        case 1: {
+        case 1:
           if (L == 0) { skip = true; break; }
-          want = string(L - 1, ' ') + "7";
-          oc = vf::outcome([&] { got = phosg::string_printf("%*d", (int)L, 7); });
-          xcheck = big_vsnprintf(L, "%*d", (int)L, 7);
+          c.want = string(L - 1, ' ') + "7";
+          c.via_printf = [&] { return phosg::string_printf("%*d", (int)L, 7); };
+          c.via_vprintf_fn = [&] { return via_vprintf("%*d", (int)L, 7); };
+          c.xcheck = big_vsnprintf(L, "%*d", (int)L, 7);
           break;
-        }
-        case 2: {
+        case 2:
           if (L < 2) { skip = true; break; }
-          string arg = pattern(L - 2);
-          want = string(1, '\0') + arg + string(1, '\0');
-          oc = vf::outcome([&] { got = phosg::string_printf("%c%s%c", 0, arg.c_str(), 0); });
-          xcheck = want;  // vsnprintf's buffer would need the length out of band too; `want` is exact by construction
+          arg = pattern(L - 2);
+          c.want = string(1, '\0') + arg + string(1, '\0');
+          c.via_printf = [&] { return phosg::string_printf("%c%s%c", 0, arg.c_str(), 0); };
+          c.via_vprintf_fn = [&] { return via_vprintf("%c%s%c", 0, arg.c_str(), 0); };
+          c.xcheck_exact = true;  // vsnprintf's buffer would need the length out of band too; `want` is exact by construction
           break;
-        }
-        case 3: {
+        case 3:
           if (L < 6) { skip = true; break; }
-          want = string(L - 6, ' ') + "-1.500";
-          oc = vf::outcome([&] { got = phosg::string_printf("%*.3f", (int)L, -1.5); });
-          xcheck = big_vsnprintf(L, "%*.3f", (int)L, -1.5);
+          c.want = string(L - 6, ' ') + "-1.500";
+          c.via_printf = [&] { return phosg::string_printf("%*.3f", (int)L, -1.5); };
+          c.via_vprintf_fn = [&] { return via_vprintf("%*.3f", (int)L, -1.5); };
+          c.xcheck = big_vsnprintf(L, "%*.3f", (int)L, -1.5);
           break;
-        }
-        case 4: {
+        case 4:
           if (L < 5) { skip = true; break; }
-          string arg = pattern(L - 5);
-          want = arg + "0.125";
-          oc = vf::outcome([&] { got = phosg::string_printf("%s%.3f", arg.c_str(), 0.125); });
-          xcheck = big_vsnprintf(L, "%s%.3f", arg.c_str(), 0.125);
+          arg = pattern(L - 5);
+          c.want = arg + "0.125";
+          c.via_printf = [&] { return phosg::string_printf("%s%.3f", arg.c_str(), 0.125); };
+          c.via_vprintf_fn = [&] { return via_vprintf("%s%.3f", arg.c_str(), 0.125); };
+          c.xcheck = big_vsnprintf(L, "%s%.3f", arg.c_str(), 0.125);
           break;
-        }
       }
       if (skip) {
         r.ok("length not reachable with this format");
         continue;
       }
-      r.nontriv();
-      if (xcheck != want) {
-        r.fail("harness:printf-reference-mismatch", [&] { return vf::fmt("internal: constructed expectation and vsnprintf disagree for form %d length %zu", form, L); });
-        continue;
-      }
-      r.xchecked++;
-      if (oc != "ok") r.fail("string_printf:throws", [&] { return vf::fmt("string_printf(\"%s\") with a %zu-byte result threw %s", fnames[form], L, oc.c_str()); });
-      else if (got.size() != want.size()) r.fail("string_printf:wrong-length", [&] { return vf::fmt("string_printf(\"%s\"): result has %zu bytes, expected %zu", fnames[form], got.size(), want.size()); });
-      else if (got != want) {
-        size_t i = 0;
-        while (i < got.size() && got[i] == want[i]) i++;
-        r.fail("string_printf:wrong-value", [&] { return vf::fmt("string_printf(\"%s\") with a %zu-byte result differs from the expected text at offset %zu", fnames[form], L, i); });
-      } else r.ok(L > 1024 ? "result longer than 1 KiB" : "result up to 1 KiB");
+      run_printf_case(r, c);
     }
   }
-  // %.3f on its own: values whose rendering is long
+  // (b) %.3f on its own: values whose rendering is long
   const double vals[] = {0.0, -0.0005, 1.0005, 123456.7894, -1e15, 1e300, -1.7976931348623157e308};
   for (double v : vals) {
     if (!r.take()) continue;
-    if (r.wants_desc()) r.desc(vf::fmt("string_printf(\"%%.3f\", %g)", v));
-    string want = big_vsnprintf(400, "%.3f", v);
-    string got;
-    string oc = vf::outcome([&] { got = phosg::string_printf("%.3f", v); });
-    r.nontriv();
-    r.xchecked++;
-    if (oc != "ok" || got != want) r.fail("string_printf:wrong-value", [&] { return vf::fmt("string_printf(\"%%.3f\", %g) -> %s, vsnprintf gives %s", v, oc == "ok" ? vf::show(got).c_str() : oc.c_str(), vf::show(want).c_str()); });
-    else r.ok("%.3f alone");
+    PrintfCase c;
+    c.what = vf::fmt("(\"%%.3f\", %g)", v);
+    c.want = c.xcheck = big_vsnprintf(400, "%.3f", v);
+    c.via_printf = [&] { return phosg::string_printf("%.3f", v); };
+    c.via_vprintf_fn = [&] { return via_vprintf("%.3f", v); };
+    run_printf_case(r, c);
   }
-  r.bound = "string_printf: %s, %*d, %c%s%c (with NUL characters), %*.3f, %s%.3f with result lengths {0,1,255,256,1023,1024,1025,4096,65536,1 MiB}; %.3f alone on 7 boundary doubles";
+  // (c) width through '*': zero, positive, negative (= left-justified), around the buffer sizes, up to 1 MiB
+  const int widths[] = {0, 1, -1, 2, -2, 3, -3, 7, -7, 255, -255, 256, -256, 257, -257, 1023, -1023, 1024, -1024, 1025, -1025, 65536, -65536, 1048576, -1048576};
+  const int ivals[] = {7, -7, 123456, 0};
+  for (int W : widths) {
+    for (int v : ivals) {
+      for (int form = 0; form < 3; form++) {  // %*d, %0*d, %-*d|
+        if (!r.take()) continue;
+        PrintfCase c;
+        string digits = std::to_string(v);
+        size_t cap = (size_t)(W < 0 ? -(long long)W : W) + 40;
+        if (form == 0) {
+          c.what = vf::fmt("(\"%%*d\", %d, %d)", W, v);
+          c.want = pad_to(digits, W);
+          c.via_printf = [&] { return phosg::string_printf("%*d", W, v); };
+          c.via_vprintf_fn = [&] { return via_vprintf("%*d", W, v); };
+          c.xcheck = big_vsnprintf(cap, "%*d", W, v);
+        } else if (form == 1) {
+          c.what = vf::fmt("(\"%%0*d\", %d, %d)", W, v);
+          if (W < 0) c.want = pad_to(digits, W);  // '-' flag overrides '0'
+          else if (v < 0) c.want = "-" + pad_to(digits.substr(1), W > 0 ? W - 1 : 0, '0');
+          else c.want = pad_to(digits, W, '0');
+          c.via_printf = [&] { return phosg::string_printf("%0*d", W, v); };
+          c.via_vprintf_fn = [&] { return via_vprintf("%0*d", W, v); };
+          c.xcheck = big_vsnprintf(cap, "%0*d", W, v);
+        } else {
+          c.what = vf::fmt("(\"%%-*d|\", %d, %d)", W, v);
+          c.want = pad_to(digits, W < 0 ? W : -(long long)W) + "|";
+          c.via_printf = [&] { return phosg::string_printf("%-*d|", W, v); };
+          c.via_vprintf_fn = [&] { return via_vprintf("%-*d|", W, v); };
+          c.xcheck = big_vsnprintf(cap, "%-*d|", W, v);
+        }
+        run_printf_case(r, c);
+      }
+    }
+  }
+  // (d) precision through '.*' on %s: negative (= none), zero, shorter / equal / longer than the argument, INT_MAX
+  const int precs[] = {INT32_MIN, -1, 0, 1, 2, 255, 256, 257, 1024, 65536, 1048576, INT32_MAX};
+  const size_t arglens[] = {0, 1, 2, 256, 257, 70000, 1048576};
+  for (int P : precs) {
+    for (size_t A : arglens) {
+      if (!r.take()) continue;
+      PrintfCase c;
+      string arg = pattern(A);
+      c.what = vf::fmt("(\"%%.*s\", %d, <%zu-byte string>)", P, A);
+      c.want = P < 0 ? arg : arg.substr(0, (size_t)P);
+      c.via_printf = [&] { return phosg::string_printf("%.*s", P, arg.c_str()); };
+      c.via_vprintf_fn = [&] { return via_vprintf("%.*s", P, arg.c_str()); };
+      c.xcheck = big_vsnprintf(A, "%.*s", P, arg.c_str());
+      run_printf_case(r, c);
+    }
+  }
+  // (e) width and precision together, and a padded NUL character
+  for (int W : {0, 5, -5, 300, -300, 70000}) {
+    for (int P : {-1, 0, 2, 400}) {
+      for (size_t A : {(size_t)0, (size_t)3, (size_t)500}) {
+        if (!r.take()) continue;
+        PrintfCase c;
+        string arg = pattern(A);
+        c.what = vf::fmt("(\"[%%*.*s]\", %d, %d, <%zu-byte string>)", W, P, A);
+        c.want = "[" + pad_to(P < 0 ? arg : arg.substr(0, (size_t)P), W) + "]";
+        c.via_printf = [&] { return phosg::string_printf("[%*.*s]", W, P, arg.c_str()); };
+        c.via_vprintf_fn = [&] { return via_vprintf("[%*.*s]", W, P, arg.c_str()); };
+        c.xcheck = big_vsnprintf(A + 70100, "[%*.*s]", W, P, arg.c_str());
+        run_printf_case(r, c);
+      }
+    }
+  }
+  for (int W : {0, 1, 2, -2, 255, 256, 257, -300, 5000}) {
+    if (!r.take()) continue;
+    PrintfCase c;
+    c.what = vf::fmt("(\"%%*c\", %d, NUL)", W);
+    c.want = pad_to(string(1, '\0'), W);
+    c.xcheck_exact = true;
+    c.via_printf = [&] { return phosg::string_printf("%*c", W, 0); };
+    c.via_vprintf_fn = [&] { return via_vprintf("%*c", W, 0); };
+    run_printf_case(r, c);
+  }
+  // (f) no conversions at all, "%%", and many arguments (register and stack passed)
+  {
+    struct Lit { const char* fmt; const char* want; };
+    for (const Lit& l : {Lit{"", ""}, Lit{"x", "x"}, Lit{"%%", "%"}, Lit{"100%% of %%s", "100% of %s"}}) {
+      if (!r.take()) continue;
+      PrintfCase c;
+      c.what = vf::fmt("(%s) without arguments", vf::show(l.fmt).c_str());
+      c.want = l.want;
+      c.xcheck_exact = true;
+      const char* f = l.fmt;
+      c.via_printf = [f] {
+#pragma GCC diagnostic push
+#pragma GCC diagnostic ignored "-Wformat-security"
+#pragma GCC diagnostic ignored "-Wformat-zero-length"
+        return phosg::string_printf(f);
+#pragma GCC diagnostic pop
+      };
+      c.via_vprintf_fn = [f] {
+#pragma GCC diagnostic push
+#pragma GCC diagnostic ignored "-Wformat-security"
+        return via_vprintf(f);
+#pragma GCC diagnostic pop
+      };
+      run_printf_case(r, c);
+    }
+    if (r.take()) {
+      PrintfCase c;
+      c.what = "(\"%d %s %d %s %d %s %d %s %.1f %.1f %.1f %.1f %.1f %.1f %.1f %.1f %.1f %lld %c\") with 19 arguments";
+      c.want = "1 a 2 b 3 c 4 d 0.5 1.5 2.5 3.5 4.5 5.5 6.5 7.5 8.5 -9000000000 z";
+      c.xcheck = big_vsnprintf(200, "%d %s %d %s %d %s %d %s %.1f %.1f %.1f %.1f %.1f %.1f %.1f %.1f %.1f %lld %c", 1, "a", 2, "b", 3, "c", 4, "d", 0.5, 1.5, 2.5, 3.5, 4.5, 5.5, 6.5, 7.5, 8.5, -9000000000ll, 'z');
+      c.via_printf = [] { return phosg::string_printf("%d %s %d %s %d %s %d %s %.1f %.1f %.1f %.1f %.1f %.1f %.1f %.1f %.1f %lld %c", 1, "a", 2, "b", 3, "c", 4, "d", 0.5, 1.5, 2.5, 3.5, 4.5, 5.5, 6.5, 7.5, 8.5, -9000000000ll, 'z'); };
+      c.via_vprintf_fn = [] { return via_vprintf("%d %s %d %s %d %s %d %s %.1f %.1f %.1f %.1f %.1f %.1f %.1f %.1f %.1f %lld %c", 1, "a", 2, "b", 3, "c", 4, "d", 0.5, 1.5, 2.5, 3.5, 4.5, 5.5, 6.5, 7.5, 8.5, -9000000000ll, 'z'); };
+      run_printf_case(r, c);
+    }
+  }
+  r.bound = "string_printf and string_vprintf (called directly): %s, %*d, %c%s%c (with NUL characters), %*.3f, %s%.3f with every result length 0..300 and {2^k-1,2^k,2^k+1 for k=9..13, 16384, 32767, 32768, 65535, 65536, 65537, 1 MiB-1, 1 MiB}; %.3f alone on 7 boundary doubles; "
+            "%*d / %0*d / %-*d with width in {0,+-1,+-2,+-3,+-7,+-255,+-256,+-257,+-1023,+-1024,+-1025,+-65536,+-1 MiB} x 4 values; %.*s with precision in {INT_MIN,-1,0,1,2,255,256,257,1024,65536,1 MiB,INT_MAX} x argument length {0,1,2,256,257,70000,1 MiB}; "
+            "%*.*s (6 widths x 4 precisions x 3 lengths); %*c with a NUL character; formats without conversions; 19 arguments";
 }
 
 VF_MAIN()
